@@ -170,7 +170,12 @@ def run(ctx):
     # CS0001 locations through the full pipeline (file ids present): primary = shadowing declaration, secondary = shadowed one
     with vlib.Workdir("c10") as wd:
         reqs2, metas = [], []
-        for i, src in enumerate(HAND[:9]):
+        # the hand-written patterns, three declarations of one name of which the second is in a block that has been left when the third
+        # one is reached (seeded change C10/m6: the third was reported as shadowing the second), and the generated definitions that shadow
+        sib = ["function f(n) { var t = 100; var r = 0; if (n > 1) { var t = 200; r += t; } if (n > 2) { var t = 300; r += t; } return r + t; }",
+               "template T(n) { signal input a; signal output b; var t = 1; for (var i = 0; i < n; i++) { var t = 2; } { var t = 3; { var t = 4; } } { var t = 5; } b <== a * t; }"]
+        gen_shadow = [src for (src, o), line in zip(meta, out) if src not in HAND and len(line.split(" # ")) == 4 and len(line.split(" # ")[2].split()) >= 2]
+        for i, src in enumerate(HAND[:9] + sib + gen_shadow[:(60 if ctx.tier == "quick" else 600)]):
             p = wd.write("h%d.circom" % i, "pragma circom 2.0.0;\n" + src + "\n")
             reqs2.append({"inputs": [p], "libs": [], "curve": "BN254"})
             metas.append(src)
